@@ -567,7 +567,7 @@ def inline_arith_temps(fn, keep=()):
     return new
 
 
-def inline_private_calls(repo, cls, fn, depth=2, only=None, _seen=()):
+def inline_private_calls(repo, cls, fn, depth=2, only=None, _seen=(), helper_transform=None):
     """copy of method `fn` of class `cls` in which calls `self._helper(args)` of *simple* helpers defined in the class
     hierarchy are replaced by the helper's body (extract-method refactorings undone before a CFG / term rule looks):
       - statement `self._h(a)`            -> `p = a` ... body (a trailing bare `return` dropped)
@@ -588,6 +588,8 @@ def inline_private_calls(repo, cls, fn, depth=2, only=None, _seen=()):
         k, h = repo.find_method(cls, name)
         if h is None or h is fn:
             return None
+        if helper_transform is not None:
+            h = helper_transform(h)
         a = h.args
         if a.vararg or a.kwarg or a.kwonlyargs or any(isinstance(d, ast.Name) and d.id in ("staticmethod", "classmethod", "property") for d in h.decorator_list):
             if any(isinstance(d, ast.Name) and d.id == "staticmethod" for d in h.decorator_list) and not (a.vararg or a.kwarg or a.kwonlyargs):
@@ -740,5 +742,5 @@ def inline_private_calls(repo, cls, fn, depth=2, only=None, _seen=()):
     if not changed[0]:
         return fn
     if depth > 1:
-        return inline_private_calls(repo, cls, new, depth - 1, only, _seen + (fn.name,))
+        return inline_private_calls(repo, cls, new, depth - 1, only, _seen + (fn.name,), helper_transform)
     return new
